@@ -43,7 +43,8 @@ RULE = ("cases = api {attr.s, define, frozen} x auto_detect {unset,T,F} x writte
         "decorator object is first applied to k in {0,1,2} other classes with different own-method subsets; and body entries "
         "come in two kinds: a fresh user object, or an ALIAS of the object the bases provide under that name (a third of the "
         "entries of every case + an exhaustive block over every group name x api x auto_detect x slots x bases); attrs bases "
-        "with/without generated __init__ and init hooks, subclasses adding a field or none (block sub_attrs_init). non-trivial = class was built and at least one watched "
+        "with/without generated __init__ and init hooks, subclasses adding a field or none (block sub_attrs_init); per-field eq/order/hash/repr/init switched off on one / every "
+        "/ the re-declared inherited field (block field_opts + a third of all cases). non-trivial = class was built and at least one watched "
         "name is the user's own object or attrs-made; distinct = distinct JSON case")
 ASSUMPTIONS = [
     "CPython's class creation rule '__eq__ in the namespace and no __hash__ => __hash__ = None' is a 1-line model function, diff-tested here",
@@ -63,6 +64,11 @@ ASSUMPTIONS = [
     "frozen like the base or not: harness-only variation -- __attrs_init__ is decided per class (own __dict__) and compared "
     "with the twin's generated __init__; a slotted attrs base is only built below a class that will be slotted (K3's shape "
     "otherwise), which uses the documented slots default of the api to choose the shape",
+    "per-field options (cfg.fx / fy / redecl_y, harness-only): eq, order, hash, repr, init switched off on the own field, on the "
+    "base's field where the base declares it, or on the inherited field re-declared in the observed class -- one option, the "
+    "same option on every field, several, all; the method table does not read them, the probes do (repr omits repr=False "
+    "fields, ==/ordering/hash use the participating fields -- none at all is a legal empty key --, __init__/__match_args__ "
+    "skip init=False fields, which stay unset); the own field keeps init=True next to a validator",
     "decorator-object history: the earlier classes are plain classes with one field and user objects bound to the listed "
     "names; an earlier class the decorator rejects (error) stays in the history; the model is a function of the class alone",
     "one own field x (plus an inherited field y below an attrs base); the decision table does not depend on the fields except "
@@ -146,6 +152,21 @@ def _base_post_init(self):
     HOOKLOG.append("bpost")
 
 
+FIELD_OPTS = ["eq", "order", "hash", "repr", "init"]
+
+
+def _fopts(case, fields):
+    """field name -> which generated methods the field takes part in"""
+    ic = _init_cfg(case)
+    out = {}
+    for f in fields:
+        offs = ic["fx"] if f == "x" else (ic["redecl_y"] if ic["redecl_y"] is not None else ic["fy"])
+        eq = "eq" not in offs
+        out[f] = {"eq": eq, "order": eq and "order" not in offs, "hash": eq and "hash" not in offs,
+                  "repr": "repr" not in offs, "init": "init" not in offs}
+    return out
+
+
 def _slotted_guess(case):
     """whether the observed class will be slotted (only used to choose shapes: a slotted attrs base is built only
     below a slotted class)"""
@@ -163,11 +184,21 @@ def _init_cfg(case):
     no_own = bool(cfg.get("no_own_field")) and has_base and not case["fieldValidator"]
     pre, post = bool(cfg.get("pre")), bool(cfg.get("post"))
     bpre, bpost = has_base and bool(cfg.get("base_pre")), has_base and bool(cfg.get("base_post"))
+    # PER-FIELD options switched off (eq / order / hash / repr / init = False): on the own field x, on the base's
+    # field y where the base declares it, or on y re-declared in the observed class.  The method table must not
+    # depend on them.  (x keeps init=True next to a validator: attrs would validate an unset attribute.)
+    fx = [] if no_own else [o for o in (cfg.get("fx") or []) if o in FIELD_OPTS]
+    if case["fieldValidator"]:
+        fx = [o for o in fx if o != "init"]
+    fy = [o for o in (cfg.get("fy") or []) if o in FIELD_OPTS] if has_base else []
+    redecl = cfg.get("redecl_y")
+    redecl = [o for o in redecl if o in FIELD_OPTS] if (has_base and redecl is not None) else None
+    x_init = "init" not in fx
     return {
-        "no_own": no_own,
-        "converter": bool(cfg.get("converter")) and bool(case["fieldValidator"]) and not no_own,
-        "dflt": "none" if no_own else (cfg.get("dflt") or "none"),
-        "kw_only": bool(cfg.get("kw_only")) and not no_own,
+        "no_own": no_own, "fx": fx, "fy": fy, "redecl_y": redecl,
+        "converter": bool(cfg.get("converter")) and bool(case["fieldValidator"]) and not no_own and x_init,
+        "dflt": "none" if (no_own or not x_init) else (cfg.get("dflt") or "none"),
+        "kw_only": bool(cfg.get("kw_only")) and not no_own and x_init,
         "pre": pre, "post": post, "base_pre": bpre, "base_post": bpost,
         # what a generated initialiser of the class must call (the class's own hook hides the base's)
         "pre_tok": "pre" if pre else ("bpre" if bpre else None),
@@ -308,8 +339,8 @@ def build(case):
             bkw["on_setattr"] = _hook
         elif ab == "frozen":
             bkw["frozen"] = True
-        ns = {"y": attr.ib(), "__module__": SYNTH_MOD}
         bic = _init_cfg(case)
+        ns = {"y": attr.ib(**{o: False for o in bic["fy"]}), "__module__": SYNTH_MOD}
         # the base may itself be a class without generated __init__ (it then owns an __attrs_init__), with or
         # without init hooks of its own
         if bic["base_init"] == "flag_f":
@@ -328,7 +359,9 @@ def build(case):
         pns["__module__"] = SYNTH_MOD
         base = types.new_class("P", (base,), {}, lambda d: d.update(pns))
     ic = _init_cfg(case)
-    fkw = {}
+    # y re-declared in the observed class (created first: attrs orders own fields by creation)
+    fldy = attr.ib(**{o: False for o in ic["redecl_y"]}) if ic["redecl_y"] is not None else None
+    fkw = {o: False for o in ic["fx"]}
     if case["fieldValidator"]:
         fkw["validator"] = _validator
     if ic["converter"]:
@@ -371,11 +404,14 @@ def build(case):
                 lines.append(f"    @{deco_}\n    def {n}({arg}):\n        __class__\n        return None")
             else:
                 lines.append(f"    def {n}(self, *a, **k):\n        __class__\n        return _impl[{n!r}](self, *a, **k)")
+        if fldy is not None:
+            lines.append("    y: int = _fieldy" if case["api"] != "attrS" else "    y = _fieldy")
         if not ic["no_own"]:
             lines.append("    x: int = _field" if case["api"] != "attrS" else "    x = _field")
         for hn in hooks_ns:
             lines.append(f"    {hn} = _hooks[{hn!r}]")
-        g = {"Base": base, "_impl": impl, "_alias": alias, "_field": fld, "_hooks": hooks_ns, "__name__": SYNTH_MOD}
+        g = {"Base": base, "_impl": impl, "_alias": alias, "_field": fld, "_fieldy": fldy, "_hooks": hooks_ns,
+             "__name__": SYNTH_MOD}
         exec("\n".join(lines), g)  # noqa: S102
         cls = g["C"]
         user = {n: cls.__dict__[n] for n in case["body"]}
@@ -383,11 +419,13 @@ def build(case):
         user = {n: (alias[n] if n in alias else _user_obj(n, "USER")) for n in case["body"]}
         ns = dict(user)
         ns["__module__"] = SYNTH_MOD
+        if fldy is not None:
+            ns["y"] = fldy
         if not ic["no_own"]:
             ns["x"] = fld
         ns.update(hooks_ns)
         if case["api"] != "attrS":
-            ns["__annotations__"] = {} if ic["no_own"] else {"x": int}
+            ns["__annotations__"] = {f: int for f in (["y"] if fldy is not None else []) + ([] if ic["no_own"] else ["x"])}
         cls = types.new_class("C", (base,), {}, lambda d: d.update(ns))
     deco = {"attrS": attr.s, "define": attrs.define, "frozen": attrs.frozen}[case["api"]]
     try:
@@ -433,26 +471,33 @@ def _is_attrs_function(v):
 def _probe(name, fn, C, fields, case, cache_hash):
     """does the attrs-made function `fn` found under `name` behave like the generated method?"""
     n = len(fields)
-    lo, hi = list(range(1, n + 1)), list(range(1, n)) + [n + 5]
+    fo = _fopts(case, fields)
+    lo = list(range(1, n + 1))
+    hi = [v + 5 for v in lo]                 # differs from lo in EVERY field
     a, b, c = (_inst(C, fields, v, cache_hash) for v in (lo, lo, hi))
+    # reference semantics over the fields that take part (none at all is a legal key: equal, not less)
+    eq_ac = all(x == y for f, x, y in zip(fields, lo, hi) if fo[f]["eq"])
+    ka = tuple(v for f, v in zip(fields, lo) if fo[f]["order"])
+    kc = tuple(v for f, v in zip(fields, hi) if fo[f]["order"])
     if name == "__repr__":
-        return fn(a) == "C(" + ", ".join(f"{f}={v!r}" for f, v in zip(fields, lo)) + ")"
+        return fn(a) == "C(" + ", ".join(f"{f}={v!r}" for f, v in zip(fields, lo) if fo[f]["repr"]) + ")"
     if name == "__str__":
         return fn(a) == a.__repr__()
     if name == "__eq__":
-        return fn(a, b) is True and fn(a, c) is False and fn(a, object()) is NotImplemented
+        return fn(a, b) is True and fn(a, c) is eq_ac and fn(a, object()) is NotImplemented
     if name == "__ne__":
         if C.__dict__.get("__eq__") is None or not _is_attrs_function(C.__dict__["__eq__"]):
             return True       # delegates to whatever __eq__ resolves to; only meaningful next to a generated one
-        return fn(a, b) is False and fn(a, c) is True
+        return fn(a, b) is False and fn(a, c) is (not eq_ac)
     if name == "__lt__":
-        return fn(a, c) is True and fn(c, a) is False and fn(a, b) is False and fn(a, object()) is NotImplemented
+        return (fn(a, c) is (ka < kc) and fn(c, a) is (kc < ka) and fn(a, b) is False
+                and fn(a, object()) is NotImplemented)
     if name == "__le__":
-        return fn(a, c) is True and fn(c, a) is False and fn(a, b) is True
+        return fn(a, c) is (ka <= kc) and fn(c, a) is (kc <= ka) and fn(a, b) is True
     if name == "__gt__":
-        return fn(c, a) is True and fn(a, c) is False and fn(a, b) is False
+        return fn(c, a) is (kc > ka) and fn(a, c) is (ka > kc) and fn(a, b) is False
     if name == "__ge__":
-        return fn(c, a) is True and fn(a, c) is False and fn(a, b) is True
+        return fn(c, a) is (kc >= ka) and fn(a, c) is (ka >= kc) and fn(a, b) is True
     if name == "__hash__":
         h = fn(a)
         return isinstance(h, int) and h == fn(b)
@@ -493,17 +538,15 @@ def _probe(name, fn, C, fields, case, cache_hash):
 
 
 def _call_forms(fields, case):
-    """(args, kwargs, expected x before conversion, uses the default) for: everything passed; x left out"""
+    """(args, kwargs, raw value per field, uses the default) for: every init field passed; x left to its default"""
     ic = _init_cfg(case)
-    n = len(fields)
-    hi = list(range(1, n)) + [n + 5]
-    forms = []
-    if ic["kw_only"]:
-        forms.append((hi[:-1], {"x": hi[-1]}, hi[-1], False))
-    else:
-        forms.append((hi, {}, hi[-1], False))
-    if ic["dflt"] != "none":
-        forms.append((hi[:-1], {}, 7, True))
+    fo = _fopts(case, fields)
+    val = {f: i + 6 for i, f in enumerate(fields)}
+    initf = [f for f in fields if fo[f]["init"]]
+    x_kw = "x" in initf and ic["kw_only"]
+    forms = [([val[f] for f in initf if not (f == "x" and x_kw)], {"x": val["x"]} if x_kw else {}, dict(val), False)]
+    if "x" in initf and ic["dflt"] != "none":
+        forms.append(([val[f] for f in initf if f != "x"], {}, dict(val, x=7), True))
     return forms
 
 
@@ -547,21 +590,23 @@ def _probe_init(name, fn, C, fields, case, cache_hash):
         T, terr, _, tfields = build(dict(case, fInit="t", history=[]))
         if terr is None and tfields == fields and _is_attrs_function(T.__dict__.get("__init__")):
             twin = T
-    for args, kwargs, x_raw, from_default in _call_forms(fields, case):
+    fo = _fopts(case, fields)
+    for args, kwargs, raw, from_default in _call_forms(fields, case):
         out, trace, st = _run_init(C, fn, args, kwargs, fields)
-        want_x = x_raw + 100 if ic["converter"] else x_raw
+        want = [((raw[f] + 100 if (f == "x" and ic["converter"]) else raw[f]) if fo[f]["init"] else "<missing>")
+                for f in fields]
         want_trace = (([ic["pre_tok"]] if ic["pre_tok"] else [])
                       + (["f:x"] if from_default and ic["dflt"] == "factory" else [])
                       + (["c:x"] if ic["converter"] else []) + (["v:x"] if case["fieldValidator"] else [])
                       + ([ic["post_tok"]] if ic["post_tok"] else []))
-        vals = list(args[:len(fields) - 1]) + [want_x]
+        vals = [v for f, v in zip(fields, want) if fo[f]["init"]]      # what BaseException.__init__ receives
         ref_trace = trace
         if C.__dict__.get("__attrs_own_setattr__") is not True:
             # no hook __setattr__ of the class's own: plain assignments are what attrs generates, and a hook
             # __setattr__ *inherited* past a plain class (K6's shape, C06) then sees them -- not this property's
             # business; the comparison with the twin below still covers the full trace
             ref_trace = [t for t in trace if t in ("pre", "post", "bpre", "bpost") or ":" in t]
-        if out != "ok" or st["fields"] != vals or ref_trace != want_trace:
+        if out != "ok" or st["fields"] != want or ref_trace != want_trace:
             return False
         if cache_hash and st["cache"] is not None:
             return False
@@ -599,7 +644,8 @@ def _classify(name, v, C, user, fields, case, cache_hash):
     if v is getattr(_attr_make, "_frozen_delattrs", _MISSING):
         return "frozenDelattr"
     if name == "__match_args__" and isinstance(v, tuple):
-        want = tuple(f for f in fields if not (f == "x" and _init_cfg(case)["kw_only"]))
+        fo = _fopts(case, fields)
+        want = tuple(f for f in fields if fo[f]["init"] and not (f == "x" and _init_cfg(case)["kw_only"]))
         return "genTuple" if v == want else "other"
     if _is_attrs_function(v):
         try:
@@ -714,6 +760,22 @@ def _mk_real(block, **kw):
                      ("base_slots", (h >> 23) % 2 == 1)):
         if key not in explicit:
             cfg[key] = val
+    # per-field options: mostly none; one option off on x; the same option off on EVERY field (base declaration or
+    # re-declaration of y in the class); several options off
+    if not ({"fx", "fy", "redecl_y"} & explicit):
+        pat = (h >> 6) % 8
+        opt = FIELD_OPTS[(h >> 9) % 5]
+        via_redecl = (h >> 12) % 2 == 1
+        if pat == 4:
+            cfg["fx"] = [opt]
+        elif pat == 5:
+            cfg["fx"] = [opt]
+            cfg["redecl_y" if via_redecl else "fy"] = [opt]
+        elif pat == 6:
+            cfg["fx"] = [o for j, o in enumerate(FIELD_OPTS) if (h >> (14 + j)) % 2]
+            cfg["redecl_y" if via_redecl else "fy"] = [o for j, o in enumerate(FIELD_OPTS) if (h >> (19 + j)) % 2]
+        elif pat == 7:
+            cfg["redecl_y"] = [opt] if via_redecl else []
     if "alias" not in explicit:
         cfg["alias"] = [n for i, n in enumerate(c["body"]) if (h >> (4 + i % 20)) % 3 == 0]
     if "history" not in kw:
@@ -816,8 +878,8 @@ def block_attrs_init():
             APIS, [True, False], OB3, routes, [True, False], [None, True], [False, True],
             ["unset", "hook", "validate"], ["none", "vanilla"]):
         for k, ic in enumerate(icfgs):
-            # every init variation for the exception rows, a rotating third of them otherwise
-            if not exc and (k + len(own) + (1 if sl else 0)) % 3:
+            # every init variation for the exception rows without an attrs base, a rotating third of them otherwise
+            if not (exc and ab == "none") and (k + len(own) + (1 if sl else 0)) % 3:
                 continue
             yield _mk("attrs_init", api=api, excBase=exc, oAutoExc=ae, fInit=fi, body=own, oAutoDetect=ad, oSlots=sl,
                       oFrozen=fr, fieldValidator=fv, onSetattr=on, attrsBase=ab, cfg=dict(ic))
@@ -836,6 +898,28 @@ def block_sub_attrs_init():
         yield _mk("sub_attrs_init", api=api, fInit=fi, body=own, oAutoDetect=ad, attrsBase=ab, oSlots=sl, oFrozen=fr,
                   cfg={"base_init": binit, "no_own_field": noown, "base_slots": bsl, "pre": pre, "post": post,
                        "base_pre": bpre, "base_post": bpost, "converter": False, "dflt": "none", "kw_only": False})
+
+
+def block_field_opts():
+    """per-field options never enter the method table: one option switched off on the own field / on every field
+    (declared so by the base, or re-declared in the class) / all options off, for the group the option belongs to
+    (and all other groups are observed as always): flag unset / True / False, with and without an own method"""
+    grp = {"eq": ("fEq", "__eq__"), "order": ("fOrder", "__lt__"), "hash": ("fUnsafeHash", "__hash__"),
+           "repr": ("fRepr", "__repr__"), "init": ("fInit", "__init__")}
+    scopes = ["x", "all_base", "all_redecl", "y_redecl", "everything"]
+    for opt, scope, api, ab, flag, own, ad, sl, fr in itertools.product(
+            FIELD_OPTS, scopes, APIS, ["none", "vanilla"], ["unset", "t", "f"], [False, True], OB3, [None, False],
+            [None, True]):
+        fkey, meth = grp[opt]
+        offs = list(FIELD_OPTS) if scope == "everything" else [opt]
+        cfg = {"fx": offs if scope != "y_redecl" else [], "no_own_field": False, "converter": False, "dflt": "none",
+               "kw_only": False}
+        if scope in ("all_base", "everything"):
+            cfg["fy"] = offs
+        if scope in ("all_redecl", "y_redecl"):
+            cfg["redecl_y"] = offs
+        yield _mk("field_opts", api=api, attrsBase=ab, oAutoDetect=ad, oSlots=sl, oFrozen=fr,
+                  body=[meth] if own else [], cfg=cfg, **{fkey: flag})
 
 
 def block_alias():
@@ -887,7 +971,7 @@ def block_other():
 
 
 BLOCKS = [block_repr, block_str, block_cmp, block_order_subsets, block_eq_inherit, block_hash, block_init,
-          block_attrs_init, block_sub_attrs_init, block_alias, block_gss,
+          block_attrs_init, block_sub_attrs_init, block_field_opts, block_alias, block_gss,
           block_match, block_setattr, block_exc, block_other]
 
 
@@ -917,6 +1001,9 @@ def random_case(rng):
                  "dflt": rng.choice(["none", "none", "value", "factory"]), "kw_only": rng.random() < 0.2,
                  "hist_base": rng.choice(["same", "same", "root"]),
                  "alias": [n for n in body if rng.random() < 0.3],
+                 "fx": [o for o in FIELD_OPTS if rng.random() < 0.2],
+                 **rng.choice([{}, {}, {"fy": [o for o in FIELD_OPTS if rng.random() < 0.4]},
+                               {"redecl_y": [o for o in FIELD_OPTS if rng.random() < 0.4]}]),
                  "no_own_field": rng.random() < 0.25, "base_init": rng.choice(["gen", "gen", "flag_f", "own"]),
                  "base_pre": rng.random() < 0.25, "base_post": rng.random() < 0.25},
             history=[rng.choice([_opposite(body, False), _opposite(body, True),
@@ -929,11 +1016,11 @@ def gen_cases(tier, rng):
     if tier == "thorough":
         for blk in BLOCKS:
             yield from blk()
-        for _ in range(60000):
+        for _ in range(30000):
             yield random_case(rng)
         return
     # quick: a seeded sample of every block, then cross-group combinations
-    per_block = 650
+    per_block = 600
     for blk in BLOCKS:
         _LAZY[0] = True
         try:
@@ -944,7 +1031,7 @@ def gen_cases(tier, rng):
             recipes = rng.sample(recipes, per_block)
         for block, kw in recipes:
             yield _mk_real(block, **kw)
-    for _ in range(5000):
+    for _ in range(4500):
         yield random_case(rng)
 
 
@@ -970,6 +1057,13 @@ def shrink(case):
             if k == "plainMid" and case["baseDefines"]:
                 continue
             yield c
+    for k in ("fx", "fy", "redecl_y"):
+        v = (case.get("cfg") or {}).get(k)
+        if v:
+            for i in range(len(v)):
+                yield dict(case, cfg=dict(case["cfg"], **{k: v[:i] + v[i + 1:]}))
+        if k == "redecl_y" and v is not None:
+            yield dict(case, cfg=dict(case["cfg"], redecl_y=None))
     if (case.get("cfg") or {}).get("base_init", "gen") != "gen":
         yield dict(case, cfg=dict(case["cfg"], base_init="gen"))
     for k in ("base_slots", "cell", "converter", "pre", "post", "kw_only", "no_own_field", "base_pre", "base_post"):
@@ -1024,8 +1118,8 @@ LEVEL_TEXT = (
     "user's object -- functions, functions with a __class__ cell, classmethod/property/staticmethod objects, a tuple, aliases of "
     "inherited objects such as object.__hash__ / Base.__repr__ --, "
     "attrs-generated and passing a behaviour probe, None, object.__setattr__, frozen setattr/delattr, generated "
-    "__match_args__) and the kind of definition error; thorough tier: exhaustive per-group blocks (about 2.5e5 cases) + 6e4 "
-    "random cross-group cases; quick: 650 sampled cases per block + 5000 random. HISTORY: every class is decorated by a "
+    "__match_args__) and the kind of definition error; thorough tier: exhaustive per-group blocks (about 2.5e5 cases) + 3e4 "
+    "random cross-group cases; quick: 600 sampled cases per block + 4500 random. HISTORY: every class is decorated by a "
     "decorator OBJECT (attr.s(...), define(...), frozen(...) called once) that was first applied to 0, 1 or 2 other classes "
     "whose bodies bind other names (the complement of the observed class's group names, and a pseudo-random subset; below "
     "the same bases or below object); the model never reads the history (C14_history_irrelevant), so a decision that "
